@@ -89,13 +89,22 @@ def run_regress(pid, run_one, extra_cases=()):
             l = l.strip()
             if l and not l.startswith("#"):
                 cases.append(json.loads(l))
-    for pref, case in [("[saved regression case] ", c) for c in cases] + [("", c) for c in extra_cases]:
-        n += 1
+    todo = [("[saved regression case] ", c) for c in cases] + [("", c) for c in extra_cases]
+
+    def one(pc):
         try:
-            for sig, msg in run_one(case):
-                fails.setdefault(sig, {"sig": sig, "msg": pref + msg, "case": {k: v for k, v in case.items() if k not in ("property", "signature", "message")}})
+            return list(run_one(pc[1]))
         except Exception:
-            pass  # inconclusive session: the generated cases decide
+            return []  # inconclusive session: the generated cases decide
+
+    # the sessions are independent child processes: play them 12 at a time, report in list order
+    from concurrent.futures import ThreadPoolExecutor
+    with ThreadPoolExecutor(max_workers=12) as ex:
+        results = list(ex.map(one, todo))
+    for (pref, case), res in zip(todo, results):
+        n += 1
+        for sig, msg in res:
+            fails.setdefault(sig, {"sig": sig, "msg": pref + msg, "case": {k: v for k, v in case.items() if k not in ("property", "signature", "message")}})
     return fails, n
 
 
